@@ -594,9 +594,12 @@ impl Room {
         content: Value,
         force_prev: Option<Vec<usize>>,
     ) -> bool {
+        let forced = force_prev.is_some();
         let mut tips = force_prev.unwrap_or_else(|| self.tips(server));
         rng.shuffle(&mut tips);
-        tips.truncate(1 + rng.below(3));
+        if !forced {
+            tips.truncate(1 + rng.below(3));
+        }
         let prev: Vec<OwnedEventId> = tips.iter().map(|&i| self.events[i].id.clone()).collect();
         let Some(before) = self.state_before(&prev) else {
             *self.stats.entry("resolve-error-in-generator").or_default() += 1;
@@ -870,6 +873,78 @@ pub fn gen_room(rng: &mut Rng, big: bool) -> (Scenario, BTreeMap<&'static str, u
     rng.shuffle(&mut events);
     *room.stats.entry("events").or_default() += events.len();
     (Scenario { ver, events, sets, chains }, room.stats)
+}
+
+/// A history shaped so that the auth difference contains an old power event whose key is
+/// unconflicted: join rules JR0 → bob joins → JR1, then concurrently a new user joins (citing JR1)
+/// and the join rules change again (JR2); the forks are the merge of both branches and the JR2
+/// branch. JR1 is in only one auth chain, is auth-checked as a power event and overwrites the
+/// unconflicted JR2 in the working state — only the final overlay of the unconflicted state
+/// restores it.
+pub fn gen_overlay(rng: &mut Rng) -> Scenario {
+    let ver = *rng.pick(&[6u32, 9, 10, 11]);
+    let mut room = Room {
+        ver,
+        rules: rules_of(ver),
+        events: Vec::new(),
+        store: HashMap::new(),
+        state_after: HashMap::new(),
+        views: vec![BTreeSet::new(); 3],
+        clock: 10,
+        used_ids: HashSet::new(),
+        stats: BTreeMap::new(),
+    };
+    let alice = USERS[0];
+    let create = if ver >= 11 { json!({"room_version": ver.to_string()}) } else { json!({"creator": alice, "room_version": ver.to_string()}) };
+    room.add(rng, 0, alice, "m.room.create", "", create, Some(vec![]));
+    room.add(rng, 0, alice, "m.room.member", alice, member("join"), None);
+    if rng.chance(3, 4) {
+        let c = pl_content(rng, ver, None);
+        room.add(rng, 0, alice, "m.room.power_levels", "", c, None);
+    }
+    room.add(rng, 0, alice, "m.room.join_rules", "", json!({"join_rule": "public"}), None);
+    room.gossip(rng, true);
+    room.add(rng, 1, USERS[1], "m.room.member", USERS[1], member("join"), None);
+    room.gossip(rng, true);
+    room.add(rng, 0, alice, "m.room.join_rules", "", json!({"join_rule": "public", "n": 1}), None);
+    room.gossip(rng, true);
+    let base = room.tips(0);
+    // branch 1: a new user joins under JR1 (on its own server, which does not see branch 2 yet)
+    let joiner = *rng.pick(&[USERS[2], USERS[3], USERS[5]]);
+    room.add(rng, server_of(joiner), joiner, "m.room.member", joiner, member("join"), Some(base.clone()));
+    let e1 = room.events.len() - 1;
+    // branch 2: the join rules change again
+    let jr2 = *rng.pick(&["public", "invite"]);
+    room.add(rng, 0, alice, "m.room.join_rules", "", json!({"join_rule": jr2, "n": 2}), Some(base));
+    let e2 = room.events.len() - 1;
+    if rng.chance(1, 2) {
+        room.add(rng, 0, alice, "m.room.topic", "", json!({"topic": "t"}), Some(vec![e2]));
+    }
+    let b2 = room.events.len() - 1;
+    // merge
+    room.add(rng, 0, alice, "m.room.name", "", json!({"name": "merged"}), Some(vec![e1, b2]));
+    let e3 = room.events.len() - 1;
+    let mut forks = vec![e3, b2];
+    if rng.chance(1, 3) {
+        forks.push(rng.below(room.events.len()));
+    }
+    rng.shuffle(&mut forks);
+    let mut sets = Vec::new();
+    let mut chains = Vec::new();
+    for &f in &forks {
+        let st = &room.state_after[&room.events[f].id];
+        let mut set: Vec<(String, String, OwnedEventId)> =
+            st.iter().map(|((t, k), i)| (t.clone(), k.clone(), i.clone())).collect();
+        rng.shuffle(&mut set);
+        let mut chain: Vec<OwnedEventId> =
+            auth_chain(&room.store, st.values().cloned()).into_iter().collect();
+        rng.shuffle(&mut chain);
+        sets.push(set);
+        chains.push(chain);
+    }
+    let mut events = room.events.clone();
+    rng.shuffle(&mut events);
+    Scenario { ver, events, sets, chains }
 }
 
 /// The F4 witness of DESIGN §7: two conflicting topics, one sent before the only power-levels
